@@ -52,6 +52,16 @@ CHECKS = {
              "units (Fraction magnitudes) are recomputed by Trace_Reg and log units checked against their formula in float.",
         design_ref="DESIGN.md section 3, C06",
         note="Logarithms are floating point: tolerance 1e-9; // and % with offset units are outside the documented table and not claimed."),
+    "C08": dict(
+        technique="TLA+ spec (Names; DefTable.Resolve) model-checked with TLC over colliding-spelling registries; TLC states replayed on real registries in two lookup orders and case-insensitively; bundled-registry strings validated by the TLC trace spec Trace_Names",
+        text="The candidate loop of parse_unit_name / get_name (suffix-major, prefix insertion order, de-duplication, exact hit first, offset refusal) "
+             "is transcribed and TLC checks over 672 registries with colliding short spellings and all 340 strings of length <= 4 that it stays within the "
+             "declarative readings, is undefined exactly when none exists and never prefixes an offset unit; 210 registries x 84 strings are replayed "
+             "through get_name / parse_units / Quantity / `in`, in two lookup orders and with case_sensitive=False; ~10^4 (thorough: all ~1.4e5) "
+             "prefix+spelling+plural strings and perturbed non-units of the bundled registry are resolved by Trace_Names from the reader's spelling tables "
+             "with the root factor checked through fingerprints; offset-prefix refusal, as_delta parsing and canonical name / symbol are checked directly.",
+        design_ref="DESIGN.md section 3, C08",
+        note="pint's 'no plural of a one-letter unit part' rule is part of the operational model; double prefixes are outside the statement."),
     "C11": dict(
         technique="TLA+ spec (PintRegistry instance MC_C11) model-checked with TLC for shortest-chain / precedence / parameter laws; every TLC stack realised through nine activation forms on real registries with set-valued comparison; bundled-context conversions validated by the TLC trace spec Trace_Ctx in fingerprint arithmetic",
         text="TLC explores every stack of up to three activations over contexts with colliding edges, a direct edge competing with a two-step chain, "
